@@ -1527,6 +1527,7 @@ def bexprOk (classes : List Class) : BExpr → Bool
   | .list xs => bexprsOk classes xs
   | .dict kvs => bdictOk classes kvs
   | .orElse a b => bexprOk classes a && bexprOk classes b
+  | .ite _ a b => bexprOk classes a && bexprOk classes b
   | _ => true
 
 def bexprsOk (classes : List Class) : List BExpr → Bool
